@@ -492,3 +492,24 @@ Section H.
     - destruct b as [[|]|]; cbn in Hin; intuition discriminate.
   Qed.
 End H.
+
+(* C01: a completed piece whose data does not hash to the listed value is discarded: the task ends, nothing is
+   written, nothing is reported (the manager then releases the piece: kill_peer) *)
+Theorem mismatch_discards sha1 cf disk ovf s rx i b blk reply :
+  h_hs_done s = true -> h_rx s = Some rx -> is_requested rx i b blk = true -> rx_left rx = [] ->
+  filter (fun bl => negb ((fst bl =? b) && (snd bl =? len blk))) (rx_requested rx) = [] ->
+  bytes_eqb (sha1 (put_block (rx_buff rx) b blk)) (rx_hash rx) = false ->
+  exists s', hstep sha1 cf disk ovf s (EFrame (Piece i b blk)) reply = HEnd s' [] false.
+Proof.
+  intros Hd Hrx Hreq Hleft Hfil Hh. cbn [hstep]. unfold handle_frame. rewrite Hd. cbn [negb andb].
+  unfold handle_piece. cbn [h_rx set_ka]. rewrite Hrx, Hreq. cbn [negb rx_left]. rewrite Hleft, Hfil.
+  cbn [rx_hash rx_index rx_buff rx_requested rx_left]. rewrite Hh. cbn [negb]. eexists. reflexivity.
+Qed.
+
+(* C01: every write of the task is hash-verified data (corollary of actions_ok) *)
+Theorem writes_verified sha1 cf disk ovf s ev r h d :
+  In (AWrite h d) (acts_of (hstep sha1 cf disk ovf s ev r)) -> bytes_eqb (sha1 d) h = true.
+Proof.
+  intros Hin. pose proof (actions_ok sha1 cf disk ovf s ev r eq_refl) as H. rewrite forallb_forall in H.
+  exact (H _ Hin).
+Qed.
